@@ -126,6 +126,8 @@ class Run:
     FLOOR_FACTOR = 0.6
 
     def rule(self, rule_id: str, text: str, expected_min: int = 1) -> None:
+        if rule_id in self.rules and self.rules[rule_id].text != text:
+            raise AnalysisError(f"rule id {rule_id} is declared twice with different texts (checker bug)")
         if rule_id not in self.rules:
             floor = max(1, int(expected_min * self.FLOOR_FACTOR + 0.999)) if expected_min > 2 else expected_min
             self.rules[rule_id] = RuleStats(rule_id, text, max(1, floor))
